@@ -1124,7 +1124,15 @@ func suiteC11(s *Shard, n int) {
 	r := s.R
 	for i := 0; i < n; i++ {
 		var src []byte
-		switch r.Intn(4) {
+		switch r.Intn(5) {
+		case 4:
+			// metadata sections of every kind (all four palette formats, any colour bytes), alone or followed by a body
+			src = cat([]byte{0x89, 'I', 'V', 'G'}, r.MetadataBytes())
+			if r.Bool() {
+				if b, err := EncodeCalls(r.RegProgram(ProgOpts{MaxPaths: 2}, false)[1:], r.Bool()); err == nil && len(b) > 5 && b[4] == 0 {
+					src = append(src, b[5:]...) // the body of a graphic encoded with no metadata chunks
+				}
+			}
 		case 0:
 			src = r.AnyBytes(corpus)
 		case 1:
@@ -1369,6 +1377,7 @@ func listingOperands(caseLine, text string, calls []Call) (fails []Failure) {
 	}
 	var got []item
 	started := false
+	palWant, palGot := -1, 0
 	for _, l := range strings.Split(strings.TrimSuffix(text, "\n"), "\n") {
 		if len(l) < 14 {
 			continue
@@ -1379,7 +1388,24 @@ func listingOperands(caseLine, text string, calls []Call) (fails []Failure) {
 			started = true
 		}
 		if !started {
-			continue // the metadata section (the suggested palette is listed there)
+			// the metadata section: the suggested palette is listed there, one line per colour, and the colours printed are
+			// the palette entries Reset receives (round 6, C11-L: the raw colour printed where the decoder delivers the
+			// sanitised one)
+			var n, bpc int
+			if k, _ := fmt.Sscanf(t, "%d palette colors, %d bytes per color", &n, &bpc); k == 2 {
+				palWant, palGot = n, 0
+				continue
+			}
+			if palWant >= 0 && strings.HasPrefix(txt, "    ") {
+				if len(calls) > 0 && calls[0].Name == "reset" && palGot < 64 {
+					e := calls[0].Pal[palGot]
+					if w := fmt.Sprintf("RGBA %02x%02x%02x%02x", e.R, e.G, e.B, e.A); t != w {
+						return []Failure{{"C11.palette-as-delivered", caseLine, fmt.Sprintf("suggested palette entry %d is listed as %q, Decode delivers %q", palGot, t, w)}}
+					}
+				}
+				palGot++
+			}
+			continue
 		}
 		switch {
 		case strings.HasPrefix(t, "Set CSEL = "), strings.HasPrefix(t, "Set NSEL = "):
@@ -1399,6 +1425,9 @@ func listingOperands(caseLine, text string, calls []Call) (fails []Failure) {
 		case strings.HasPrefix(txt, "    ") && (strings.HasPrefix(t, "RGBA ") || strings.HasPrefix(t, "gradient (") || strings.HasPrefix(t, "customPalette[") || strings.HasPrefix(t, "CREG[") || strings.HasPrefix(t, "blend (") || t == "nonsensical color"):
 			got = append(got, item{"col", t})
 		}
+	}
+	if palWant >= 0 && palGot != palWant {
+		return []Failure{{"C11.palette-as-delivered", caseLine, fmt.Sprintf("%d palette colours announced, %d listed", palWant, palGot)}}
 	}
 	for i := range want {
 		if i >= len(got) {
